@@ -3,6 +3,7 @@
 From Coq Require Import ZArith List.
 From Verif Require Import Spec.Keccak Spec.Blake512 Model.KeccakStream
   Proofs.KeccakStreamProofs Spec.HashVectors.
+From Verif Require Gen.BigIntLoops Proofs.BigIntEqLoopsMisc.
 Import ListNotations.
 
 (* keccak256.Hash(data...) — the streaming sponge as the wrapper drives it —
@@ -39,8 +40,17 @@ Proof. split; vm_compute; reflexivity. Qed.
    purity harness.  The third-party digests (x/crypto/sha3, dchest/blake512)
    are tied to [keccak256]/[blake512] by Spec/HashVectors.v (54 digests
    produced by the Go code, re-computed inside Coq) and by the correspondence. *)
+
+(* ---- the LOOPS of the Go source: tools/bigintgen re-translates the whole functions, loops
+   included, at every run (Gen/BigIntLoops.v: a Go `for` becomes a fold over its index range
+   with the loop-carried variables as accumulator); the translated function equals the model
+   the theorems above are about ---- *)
+Theorem C20_loop_is_the_source : forall data, BigIntLoops.keccak256_Hash data = KeccakStream.Hash data.
+Proof. exact BigIntEqLoopsMisc.gen_keccak256_Hash_eq. Qed.
+
 Print Assumptions C20_vectors.
 Print Assumptions C20_keccak_wrapper.
 Print Assumptions C20_split_independent.
 Print Assumptions C20_keccak_length.
 Print Assumptions C20_blake_length.
+Print Assumptions C20_loop_is_the_source.
